@@ -33,6 +33,8 @@ type node struct {
 	blend bool // a blend function is installed somewhere below (values are bounded, not equal, see C02)
 	ops   int  // number of operator nodes below (incl. this)
 	p     []float64
+	rot   bool    // transform node with a rotation that is not a multiple of 90 degrees about an axis
+	off   float64 // offset nodes: the offset
 }
 
 func (n *node) String() string { return n.desc }
@@ -42,6 +44,81 @@ func (n *node) size() float64 {
 		return n.s2.BoundingBox().Size().Length()
 	}
 	return n.s3.BoundingBox().Size().Length()
+}
+
+func allKids(n *node, f func(*node) bool) bool {
+	for _, k := range n.kids {
+		if !f(k) {
+			return false
+		}
+	}
+	return true
+}
+
+// lb2: outside its box the value is at least the Euclidean distance to the box (what Union2D's box pruning and
+// rotated boxes need). Derived from the node kinds, bottom-up.
+func (n *node) lb2() bool {
+	if len(n.kids) == 0 {
+		return n.exact
+	}
+	k0 := n.kids[0]
+	switch n.kind {
+	case "transform", "scaleuniform", "center", "centerandscale", "cache", "orient", "rotateunion", "rotatecopy", "shell", "extruderounded":
+		return k0.lb2()
+	case "union", "multi", "lineof", "array", "elongate":
+		return !(n.kind == "union" && len(n.p) > 0) && allKids(n, (*node).lb2)
+	case "difference", "intersect", "cut":
+		return len(n.p) == 0 && k0.lb2()
+	case "offset":
+		return n.off > 0 && k0.lb2()
+	case "revolve":
+		return (len(n.p) == 0 || n.p[0] == 0) && k0.lb2()
+	}
+	return false
+}
+
+// lbInf: outside its box the value is at least the per-axis outside distance (what makes an Offset/Shell box meaningful).
+func (n *node) lbInf() bool {
+	if n.lb2() {
+		return true
+	}
+	if len(n.kids) == 0 {
+		return false
+	}
+	k0 := n.kids[0]
+	switch n.kind {
+	case "transform":
+		return !n.rot && k0.lbInf()
+	case "scaleuniform", "center", "centerandscale", "cache", "shell", "extrude", "extruderounded":
+		return k0.lbInf()
+	case "union", "multi", "lineof", "array", "elongate", "loft":
+		return !(n.kind == "union" && len(n.p) > 0) && allKids(n, (*node).lbInf)
+	case "difference", "intersect", "cut":
+		return len(n.p) == 0 && k0.lbInf()
+	case "offset":
+		return n.off > 0 && k0.lbInf()
+	case "revolve":
+		return (len(n.p) == 0 || n.p[0] == 0) && k0.lbInf()
+	}
+	return false
+}
+
+// mayBeEmpty: the shape can have no material at all (or none in parts of its box).
+func (n *node) mayBeEmpty() bool {
+	switch n.kind {
+	case "difference", "intersect", "cut":
+		return true
+	case "offset":
+		if n.off < 0 {
+			return true
+		}
+	}
+	for _, k := range n.kids {
+		if k.mayBeEmpty() {
+			return true
+		}
+	}
+	return false
 }
 
 type genOpts struct {
@@ -437,6 +514,7 @@ func mk3(r *Rng, op string, depth int, scale float64, o genOpts) *node {
 		inv := inv4(m)
 		n := wrap3(op, "Transform3D["+d+"]", sdf.Transform3D(k.s3, m), func(p v3.Vec) []float64 { return k.ref3(inv.mulPos(p)) }, k)
 		n.exact, n.lip1, n.boxlb = k.exact, k.lip1, k.boxlb
+		n.rot = strings.Contains(d, "*R")
 		return n
 	case "transform-nonuniform":
 		k := kid()
@@ -464,7 +542,7 @@ func mk3(r *Rng, op string, depth int, scale float64, o genOpts) *node {
 				inv := inv4(m)
 				ki := ks[i]
 				t := wrap3("transform", "Transform3D[rigid]", sdf.Transform3D(ki.s3, m), func(p v3.Vec) []float64 { return ki.ref3(inv.mulPos(p)) }, ki)
-				t.exact, t.lip1, t.boxlb = ki.exact, ki.lip1, ki.boxlb
+				t.exact, t.lip1, t.boxlb, t.rot = ki.exact, ki.lip1, ki.boxlb, true
 				ks[i] = t
 			}
 			ss[i] = ks[i].s3
@@ -493,7 +571,7 @@ func mk3(r *Rng, op string, depth int, scale float64, o genOpts) *node {
 		m, _ := rigid3(r, scale*0.3)
 		inv := inv4(m)
 		b := wrap3("transform", "Transform3D[rigid]", sdf.Transform3D(b0.s3, m), func(p v3.Vec) []float64 { return b0.ref3(inv.mulPos(p)) }, b0)
-		b.exact, b.lip1, b.boxlb = b0.exact, b0.lip1, b0.boxlb
+		b.exact, b.lip1, b.boxlb, b.rot = b0.exact, b0.lip1, b0.boxlb, true
 		bl := 0.0
 		blend := !o.noBlend && r.P(0.25)
 		if blend {
@@ -626,7 +704,7 @@ func mk3(r *Rng, op string, depth int, scale float64, o genOpts) *node {
 		return n
 	case "offset", "offset+":
 		k := kid()
-		if !k.boxlb {
+		if !k.lbInf() {
 			return nil
 		}
 		sz := k.s3.BoundingBox().Size().MinComponent()
@@ -636,11 +714,12 @@ func mk3(r *Rng, op string, depth int, scale float64, o genOpts) *node {
 		}
 		n := wrap3("offset", fmt.Sprintf("Offset3D[%.4g]", off), sdf.Offset3D(k.s3, off),
 			func(p v3.Vec) []float64 { return mapF(k.ref3(p), func(v float64) float64 { return v - off }) }, k)
+		n.off = off
 		n.exact, n.lip1, n.boxlb = k.exact && off > 0 && convexKind(k), k.lip1, k.boxlb && off > 0
 		return n
 	case "shell":
 		k := kid()
-		if !k.boxlb {
+		if !k.lbInf() {
 			return nil
 		}
 		th := k.s3.BoundingBox().Size().MinComponent() * r.R(0.02, 0.3)
@@ -665,7 +744,7 @@ func mk3(r *Rng, op string, depth int, scale float64, o genOpts) *node {
 		k := kid2()
 		h := scale * r.R(0.4, 3)
 		rd := h / 2 * r.R(0.05, 1)
-		if !k.boxlb {
+		if !k.lbInf() {
 			return nil
 		}
 		s, err := sdf.ExtrudeRounded3D(k.s2, h, rd)
@@ -684,7 +763,7 @@ func mk3(r *Rng, op string, depth int, scale float64, o genOpts) *node {
 		a, b := kid2(), kid2()
 		h := scale * r.R(0.4, 3)
 		rd := h / 2 * r.R(0, 0.8)
-		if !a.boxlb || !b.boxlb {
+		if !a.lbInf() || !b.lbInf() {
 			return nil
 		}
 		s, err := sdf.Loft3D(a.s2, b.s2, h, rd)
@@ -935,11 +1014,23 @@ func gen2(r *Rng, depth int, scale float64, o genOpts) *node {
 	return leaf2(r, scale)
 }
 
+// prunable2 returns k if it is a valid operand for Union2D's bounding-box pruning, else a leaf. The pruning is only exact
+// for operands that have material in their box and whose value outside the box is at least the distance to it; operands
+// that may be empty (intersections, differences, cuts) or that underestimate distances (non-uniform scaling) are a
+// recorded known finding (C16, pinned) and are kept out of the random workloads.
+func prunable2(r *Rng, k *node, scale float64) *node {
+	if k.lb2() && !k.mayBeEmpty() {
+		return k
+	}
+	return leaf2(r, scale)
+}
+
 func rigidWrap2(r *Rng, k0 *node, scale float64) *node {
 	m, d := rigid2(r, scale)
 	inv := inv3(m)
 	t := wrap2("transform", "Transform2D["+d+"]", sdf.Transform2D(k0.s2, m), func(p v2.Vec) []float64 { return k0.ref2(inv.mulPos(p)) }, k0)
 	t.exact, t.lip1, t.boxlb = k0.exact, k0.lip1, k0.boxlb
+	t.rot = strings.Contains(d, "*R")
 	return t
 }
 
@@ -983,7 +1074,7 @@ func mk2(r *Rng, op string, depth int, scale float64, o genOpts) *node {
 		ks := make([]*node, nk)
 		ss := make([]sdf.SDF2, nk)
 		for i := range ks {
-			ks[i] = kid()
+			ks[i] = prunable2(r, kid(), scale)
 			if i > 0 {
 				ks[i] = rigidWrap2(r, ks[i], scale*0.5)
 			}
@@ -1133,7 +1224,7 @@ func mk2(r *Rng, op string, depth int, scale float64, o genOpts) *node {
 		return n
 	case "offset", "offset+":
 		k := kid()
-		if !k.boxlb {
+		if !k.lbInf() {
 			return nil
 		}
 		sz := k.s2.BoundingBox().Size().MinComponent()
@@ -1144,10 +1235,11 @@ func mk2(r *Rng, op string, depth int, scale float64, o genOpts) *node {
 		n := wrap2("offset", fmt.Sprintf("Offset2D[%.4g]", off), sdf.Offset2D(k.s2, off), func(p v2.Vec) []float64 {
 			return mapF(k.ref2(p), func(v float64) float64 { return v - off })
 		}, k)
+		n.off = off
 		n.exact, n.lip1, n.boxlb, n.symY = k.exact && off > 0 && convexKind(k), k.lip1, k.boxlb && off > 0, k.symY
 		return n
 	case "multi", "lineof":
-		k := kid()
+		k := prunable2(r, kid(), scale)
 		cnt := r.IR(1, 4)
 		var s sdf.SDF2
 		var ts []v2.Vec
